@@ -257,3 +257,30 @@ def forward_must(cfg: CFG, init: frozenset, transfer: Callable[[Node, frozenset]
                 facts[m.id] = new
                 work.append(m)
     return {k: (v if v is not None else frozenset()) for k, v in facts.items()}
+
+
+def strip_not(test: ast.AST):
+    """(core test, polarity): `not X` -> (X, False); `a not in b` -> (`a in b`, False); `a is not b` -> (`a is b`, False);
+    `a != b` -> (`a == b`, False).  Lets path rules treat `if not c: B else: A` like `if c: A else: B`."""
+    pos = True
+    while True:
+        if isinstance(test, ast.UnaryOp) and isinstance(test.op, ast.Not):
+            test, pos = test.operand, not pos
+            continue
+        if isinstance(test, ast.Compare) and len(test.ops) == 1 and isinstance(test.ops[0], (ast.NotIn, ast.IsNot, ast.NotEq)):
+            op = {ast.NotIn: ast.In, ast.IsNot: ast.Is, ast.NotEq: ast.Eq}[type(test.ops[0])]()
+            test, pos = ast.Compare(left=test.left, ops=[op], comparators=test.comparators), not pos
+            continue
+        return test, pos
+
+
+def test_key(node: "Node"):
+    """(normalised source of the positive core of a test node, polarity)"""
+    core, pos = strip_not(node.ast.test)
+    return ast.unparse(core).replace(" ", ""), pos
+
+
+def taken(node: "Node", label: str, want_core_true: bool = True) -> bool:
+    """does the edge `label` ('T' / 'F') of this test node correspond to its positive core being `want_core_true`?"""
+    _, pos = test_key(node)
+    return (label == "T") == (pos == want_core_true)
